@@ -279,6 +279,11 @@ theorem inv_step {s s' : St} {e : Ev} (hi : Inv s) (h : step s e = .ok s') :
         omega
       · simp only [Ctx.depth] at hd ⊢; omega
     · cases h
+  | missingInclude =>
+    simp only [step] at h
+    injection h with h
+    subst h
+    exact ⟨⟨hc, hd⟩, rfl⟩
 
 /-- the sum of the edge costs on the native stack is accounted for in `Context::depth()` -/
 theorem wsum_lt_depth {b : Nat} : ∀ {acts : List Act} {cur : Ctx},
@@ -315,6 +320,7 @@ theorem step_ne_panic {s : St} (hi : Inv s) (e : Ev) : step s e ≠ .panic := by
     | cons a rest => rw [leave_restores hi hacts]; simp
   | push => simp only [step]; split <;> simp
   | pop => simp only [step]; split <;> simp
+  | missingInclude => simp [step]
 
 /-- number of activations after a successful step -/
 theorem step_acts_length {s s' : St} {e : Ev} (hi : Inv s) (h : step s e = .ok s') :
@@ -343,9 +349,39 @@ theorem step_acts_length {s s' : St} {e : Ev} (hi : Inv s) (h : step s e = .ok s
     split at h
     · injection h with h; subst h; simp [pending]
     · cases h
+  | missingInclude =>
+    simp only [step] at h
+    injection h with h
+    subst h
+    simp [pending]
 
 theorem pending_cons (e : Ev) (es : List Ev) (n : Nat) :
     pending (e :: es) n = pending es (pending [e] n) := by
   cases e <;> simp [pending]
+
+/-- unwinding: leaving the `pre.length + 1` innermost activations (the way an error propagates
+    out of nested constructs, or the way they return) restores the context that was current when
+    the outermost of them was entered, and never panics -/
+theorem unwind_restores : ∀ (pre : List Act) {s : St} {a : Act} {rest : List Act},
+    Inv s → s.acts = pre ++ a :: rest →
+    run s (List.replicate (pre.length + 1) .leave) = .ok { s with cur := a.old, acts := rest } := by
+  intro pre
+  induction pre with
+  | nil =>
+    intro s a rest hi ha
+    simp only [List.nil_append] at ha
+    simp only [List.length_nil, List.replicate, run, step, leave_restores hi ha]
+  | cons p ps ih =>
+    intro s a rest hi ha
+    simp only [List.cons_append] at ha
+    have hl := leave_restores hi ha
+    have hs : step s .leave = .ok { s with cur := p.old, acts := ps ++ a :: rest } := hl
+    have hi' := (inv_step hi hs).1
+    have := ih (s := { s with cur := p.old, acts := ps ++ a :: rest }) hi' rfl
+    have e1 : List.replicate ((p :: ps).length + 1) Ev.leave =
+        Ev.leave :: List.replicate (ps.length + 1) Ev.leave := rfl
+    rw [e1]
+    simp only [run, hs]
+    exact this
 
 end MJ.Depth
